@@ -351,3 +351,61 @@ def contracts_at_run_time(tier, seed):
 def rerun(inp):
     viol, info = history(inp["seed"], inp["trial"])
     return {"reproduced": bool(viol), "failing": viol[:3]}
+
+
+def aware_intervals(tier, seed):
+    """C06: interest is pro-rated by ELAPSED seconds. With timezone-aware decision times whose UTC offsets differ (a daylight-saving
+    switch, or times stamped in two zones) the elapsed time is not the difference of the wall clocks. Rebalances that trade nothing."""
+    from datetime import timezone
+    acc = Acc("no-trade rebalances at timezone-aware instants with differing UTC offsets (EST->EDT weekend, UTC vs UTC+9, three cuts of a "
+              "year) x cash sign x rate; the balance after each interval against (1 + rate -/+ markup) ** (elapsed seconds / 365 days); a time "
+              "earlier (in absolute time) than the last accrual must be refused; non-trivial = distinct case", "<= 4 accruals per case")
+    est, edt, jst, utc = timezone(timedelta(hours=-5)), timezone(timedelta(hours=-4)), timezone(timedelta(hours=9)), timezone.utc
+    seqs = {
+        "dst_weekend": [datetime(2021, 3, 12, 16, tzinfo=est), datetime(2021, 3, 15, 16, tzinfo=edt), datetime(2021, 3, 16, 16, tzinfo=edt)],
+        "two_zones": [datetime(2021, 1, 1, 0, tzinfo=utc), datetime(2021, 7, 1, 9, tzinfo=jst), datetime(2022, 1, 1, 0, tzinfo=utc)],
+        "same_zone": [datetime(2021, 1, 1, 0, tzinfo=jst), datetime(2021, 1, 2, 0, tzinfo=jst), datetime(2021, 2, 1, 0, tzinfo=jst)],
+    }
+    for name, times in seqs.items():
+        for cash0 in (1e5, -2e4):
+            for rate, markup in ((0.03, 0.005), (0.0, 0.01)):
+                ex = Exchange()
+                ex.process_EventNBBO(EventNBBO(times[0], Cash(), 1, 1))
+                ex.process_EventNBBO(EventNBBO(times[0], RATE, rate, rate))
+                b = Broker(ex, deposit=cash0, fees=BrokerFees(markup=markup))
+                acc.case((name, cash0, rate))
+                bad = None
+                try:
+                    # a solvent account accrues through no-trade rebalances; a borrowed balance (insolvent on its own: it could not
+                    # rebalance) through direct accruals
+                    tick = (lambda t: b.rebalance(Rebalancing(time=t))) if cash0 > 0 else (lambda t: b.accrued_interest(t, accrue=True))
+                    tick(times[0])
+                    want = cash0
+                    for t0, t1 in zip(times, times[1:]):
+                        tick(t1)
+                        years = (t1 - t0).total_seconds() / SECONDS_IN_YEAR
+                        cagr = (rate - markup) if want > 0 else (rate + markup)
+                        grow = want * ((1 + cagr) ** years - 1)
+                        if want > 0 and grow < 0:
+                            grow = 0.0
+                        want += grow
+                        got = b.holdings_quantity[Cash()]
+                        acc.validated += 1
+                        if abs(got - want) > 1e-9 * max(1.0, abs(want)):
+                            bad = {"sequence": name, "interval": [str(t0), str(t1)], "elapsed_hours": (t1 - t0).total_seconds() / 3600,
+                                   "balance": got, "expected": want}
+                            break
+                    if bad is None:
+                        # one hour of wall clock later, but five hours EARLIER in absolute time
+                        back = (times[-1] - timedelta(hours=5)).astimezone(timezone(timedelta(hours=-6))) if times[-1].utcoffset() == timedelta(0) else None
+                        if back is not None:
+                            try:
+                                tick(back)
+                                bad = {"sequence": name, "problem": "an instant earlier than the last accrual was accepted", "time": str(back)}
+                            except ValueError:
+                                pass
+                except Exception as ex_:
+                    bad = {"sequence": name, "error": "%s: %s" % (type(ex_).__name__, str(ex_)[:160])}
+                if bad:
+                    acc.fail("runtime::C06::prorated_by_elapsed_seconds", "runtime_contract", {"aware": name, "cash": cash0, "rate": rate, "markup": markup}, bad)
+    return acc.out()
